@@ -61,7 +61,14 @@ fn run_scenario(sc: &Scenario, obs: &Arc<Mutex<Obs>>) {
                                 return Ok(());
                             }
                         }
-                        let n = r.read(&mut buf)?;
+                        let n = match r.read(&mut buf) {
+                            Ok(n) => n,
+                            Err(e) => {
+                                // a caller may call again after an error: that call must return, too
+                                let _ = r.read(&mut buf);
+                                return Err(e);
+                            }
+                        };
                         calls += 1;
                         if n == 0 {
                             break;
@@ -76,7 +83,13 @@ fn run_scenario(sc: &Scenario, obs: &Arc<Mutex<Obs>>) {
                                 return Ok(());
                             }
                         }
-                        let n = r.read(&mut buf)?;
+                        let n = match r.read(&mut buf) {
+                            Ok(n) => n,
+                            Err(e) => {
+                                let _ = r.read(&mut buf);
+                                return Err(e);
+                            }
+                        };
                         calls += 1;
                         if n == 0 {
                             break;
